@@ -63,6 +63,8 @@ structure Exec where
   output : Json
   startDate : Int
   stopDate : Json
+  /-- further members the engine adds (`error`, `cause` of a failed execution) -/
+  extra : List (Str × Json)
   deriving DecidableEq, Inhabited
 
 structure State where
@@ -135,10 +137,10 @@ def Machine.forExecution (arn : Str) (m : Machine) : Json :=
         (S "updateDate", .num m.updateDate)]
 
 def Exec.toJson (arn : Str) (e : Exec) : Json :=
-  .obj [(S "executionArn", .str arn), (S "input", e.input), (S "name", .str e.name),
+  .obj ([(S "executionArn", .str arn), (S "input", e.input), (S "name", .str e.name),
         (S "output", e.output), (S "startDate", .num e.startDate),
         (S "stateMachineArn", .str e.stateMachineArn), (S "status", .str e.status),
-        (S "stopDate", e.stopDate)]
+        (S "stopDate", e.stopDate)] ++ e.extra)
 
 def Exec.summary (arn : Str) (e : Exec) : Json :=
   .obj [(S "executionArn", .str arn), (S "name", .str e.name), (S "startDate", .num e.startDate),
